@@ -529,10 +529,15 @@ func injectRequestMeta[T any, P interface {
 	Params
 }](cs *ClientSession, params P) P {
 	res := cs.state.InitializeResult
-	if params == nil {
-		params = new(T)
+	// Work on a copy: the params value (and its Meta map) belongs to the
+	// caller, who may use it again - on a session that negotiated another
+	// protocol version, for one, where this session's _meta would be wrong.
+	cp := new(T)
+	if params != nil {
+		*cp = *params
 	}
-	m := params.GetMeta()
+	params = cp
+	m := maps.Clone(params.GetMeta())
 	if m == nil {
 		m = map[string]any{}
 	}
